@@ -749,6 +749,8 @@ static ASTNode *load_module_internal_impl(const char *module_path, Environment *
                             sym->def_line = 0;
                             sym->def_column = 0;
                             sym->scope_closed = false;
+                            sym->scope_end_line = 0;
+                            sym->scope_end_column = 0;
                             
                             /* Set value */
                             if (constants[j].type == TYPE_INT) {
